@@ -21,7 +21,7 @@ RULE = ("decision function: Coq theorems over the model, tied to timed_run's if/
 PY = sys.executable
 TERMINATING = [s for s in range(1, 32) if s not in (
     signal.SIGSTOP, signal.SIGTSTP, signal.SIGTTIN, signal.SIGTTOU, signal.SIGCONT,
-    signal.SIGCHLD, signal.SIGURG, signal.SIGWINCH)]
+    signal.SIGCHLD, signal.SIGURG, signal.SIGWINCH)] + list(range(signal.SIGRTMIN, signal.SIGRTMAX + 1))
 
 
 def want_status(timed_out, rc):
@@ -89,10 +89,12 @@ def run(ck: Check):
                     err=b"\xfe\n", nerr=n // 2, code=3, use_files=mode)
             for lim in ([0.5, 0.8] if quick else [0.4, 0.6, 0.8, 1.0]):
                 for margin in (0.3,) if quick else (0.3, 0.15):
+                    # still running at the limit: must be TIMEOUT whatever the machine load
                     job(f"sleep+{lim}+{margin}", sleep=lim + margin, limit=lim, out=b"early\n", err=b"E\n",
                         code=5, use_files=mode)
-                    job(f"sleep-{lim}-{margin}", sleep=max(0.0, lim - margin), limit=lim, out=b"early\n",
-                        code=6, use_files=mode)
+            for lim, nap in ((1.5, 0.3), (2.0, 1.0)) if quick else ((1.5, 0.3), (2.0, 1.0), (2.5, 1.6), (3.0, 0.0)):
+                # finishes well before the limit (1 s of slack for interpreter start-up under load)
+                job(f"sleep-{lim}-{nap}", sleep=nap, limit=lim, out=b"early\n", code=6, use_files=mode)
             job("int-timeout", sleep=3, limit=1, out=b"x", use_files=mode)
 
         def do(j):
@@ -100,8 +102,11 @@ def run(ck: Check):
             prefix = os.path.join(work, f"log{idx}") if j["use_files"] else None
             src = child(j["code"], sleep=j["sleep"], sig=j["sig"])
             t0 = time.time()
-            rd = timed_run([PY, "-c", src, j["out"].hex(), str(j["nout"]), j["err"].hex(), str(j["nerr"])],
-                           j["limit"], prefix)
+            try:
+                rd = timed_run([PY, "-c", src, j["out"].hex(), str(j["nout"]), j["err"].hex(), str(j["nerr"])],
+                               j["limit"], prefix)
+            except BaseException as exc:  # pylint: disable=broad-except
+                return j, exc, b"", b"", False, 0.0
             el = time.time() - t0
             if prefix is None:
                 out, err = rd.out, rd.err
@@ -115,6 +120,12 @@ def run(ck: Check):
         with ThreadPoolExecutor(16) as ex:
             results = list(ex.map(do, jobs))
         for j, rd, out, err, still, el in results:
+            if isinstance(rd, BaseException):
+                ck.count("child")
+                ck.violation(f"timed_run on child '{j['name']}' (files={j['use_files']}) raised "
+                             f"{type(rd).__name__}: {rd}",
+                             {k: (v.hex() if isinstance(v, bytes) else v) for k, v in j.items()})
+                continue
             ck.count("child")
             ck.nontrivial((j["name"], j["use_files"]))
             timed_out = j["sleep"] > j["limit"]
@@ -139,7 +150,8 @@ def run(ck: Check):
                              {k: (v.hex() if isinstance(v, bytes) else v) for k, v in j.items()})
             cases.append(f"classify {'T' if timed_out else 'F'} {rc if rc is not None else 0}")
             impl.append(f"{got} {rd.return_code}")
-        ck.sample({"child": "exit 77, files", "status": [x for x in results if x[0]["name"] == "exit77"][0][1].status.name})
+        ck.sample({"child": "exit 77, files", "status": [getattr(getattr(x[1], "status", None), "name", "?")
+                                                         for x in results if x[0]["name"] == "exit77"][0]})
 
         # re-use of a log prefix (as `repeat` does): the files must hold exactly the new output
         reuse = os.path.join(work, "reuse")
@@ -210,6 +222,8 @@ def run(ck: Check):
     finally:
         shutil.rmtree(work, ignore_errors=True)
     model = run_model(cases)
+    from coqlit import xcheck
+    xcheck(ck, cases, model)
     for c, m, i in zip(cases, model, impl):
         mm = " ".join(m.split()[:2])
         if mm != i:
